@@ -119,7 +119,8 @@ def run(rep, F, ctx):
         B = cg.body(bname)
         sites = [(i, t) for i, t in B.calls() if (callee_of(t) or '').endswith('>::get_file_mut')]
         import re as _re
-        ok = bool(sites) and all(_re.fullmatch(r'_abs\(arg1,write_guard\(arg1\),arg2\)\?', sdesc_operand(B, t['args'][1])) for i, t in sites)
+        # a handle-based implementation (no in-place write here) is fine: the handle writes back under its own path (C07 SYNC-SHAPE)
+        ok = all(_re.fullmatch(r'_abs\(arg1,write_guard\(arg1\),arg2\)\?', sdesc_operand(B, t['args'][1])) for i, t in sites)
         rep.add('OWN-KEY', 'ownkey:%s' % m, 'Memfs::%s modifies only the record stored under abs(path)' % m, ok, '%s:%d' % (B.file, B.line),
                 '' if ok else 'Memfs::%s writes a record not keyed by its own resolved path argument: %s' % (m, [sdesc_operand(B, t['args'][1]) for i, t in sites]))
     cp = '<%s>::_copy' % MEMFS
